@@ -250,3 +250,16 @@ V("c11-negative-weights-accepted", "C11", ZOFF, "    if where(weights < 0.0)[0].
 V("c11-phase-mispaired", "C11", ZREC, "                    ln_modulus,\n                    simulated_phase[interpolation][smoothing],\n                    smoothing,", "                    ln_modulus,\n                    simulated_phase[interpolation][list(simulated_phase[interpolation])[0]],\n                    smoothing,", "fire", "phase-pairing")
 V("c11-no-clip", "C11", ZWGT, "weights[indices] = 1.0", "weights[indices] = weights[indices]", "fire", "_generate_weights:support")
 V("c11-benign-residual", "C11", ZOFF, "return weights * errors", "return errors * weights", "silent")
+
+# ---------------------------------------------------------------- round-4 seeds distilled
+V("c20-label-truncated", "C20", "circuit/diagrams/schemdraw.py", "label: str = elem.get_label() or str(identifiers[elem])", "label: str = (elem.get_label() or str(identifiers[elem])).split(\"_\")[-1]", "fire", "to_drawing:labels")
+V("c16-label-strip-after", "C16", BASE, "        label = label.strip()\n\n        if label != \"\":\n            if not all(map(str.isascii, label)):", "        if label != \"\":\n            if not all(map(str.isascii, label)):", "silent")
+VM("c16-label-strip-late", "C16", [(BASE, "        label = label.strip()\n\n        if label != \"\":\n            if not all(map(str.isascii, label)):", "        if label != \"\":\n            if not all(map(str.isascii, label)):"),
+                                   (BASE, "        self._label = label\n\n        return self", "        self._label = label.strip()\n\n        return self")], "fire", "set_label:stored-is-validated")
+V("c16-benign-isdigit-method", "C16", BASE, "            if all(map(str.isdigit, label)):", "            if label.isdigit():", "silent")
+V("c03-benign-isdigit-method", "C03", BASE, "            if all(map(str.isdigit, label)):", "            if label.isdigit():", "silent")
+KKMI = "analysis/kramers_kronig/matrix_inversion.py"
+KKLS = "analysis/kramers_kronig/least_squares.py"
+V("c07-tolerant-zero-guard", "C07", KKMI, "        if C == 0.0:\n            C = 1e-50", "        if abs(C) < 1e-8:\n            C = 1e-50", "fire", "zero-guard:C")
+V("c09-tolerant-zero-guard", "C09", KKLS, "                if R == 0.0:\n                    R = inf", "                if abs(R) < 1e-8:\n                    R = inf", "fire", "zero-guard:R")
+V("c07-benign-zero-guard-int", "C07", KKMI, "        if C == 0.0:\n            C = 1e-50", "        if C == 0:\n            C = 1e-50", "silent")
